@@ -1,8 +1,13 @@
 """C11 -- re-formatting a rational expression never changes its value.
 
 1. tx_ratfun regenerates lean/Lcapy/Generated/RatfunSrc.lean from /repo/lcapy/ratfun.py (the sign with
-   which every builder re-attaches the delay factor; the names tested by isinstance in _zp2tf/_tc2tf).
-2. lake build Lcapy.Props.C11 re-checks every theorem against the regenerated constants; axioms audit.
+   which every builder re-attaches the delay factor; the names tested by isinstance in _zp2tf/_tc2tf) and
+   lean/Lcapy/Generated/RatfunFmtSrc.lean from lcapy/expr.py, utils.py, ratfun.py (which coefficient normalises
+   `normcoeffs` / `ba`, which polynomial each degree is taken of, the comparison in `is_strictly_proper`, what each side
+   of divide/multiply_top_and_bottom is combined with, the conjugate / real / imag parts of rationalize_denominator,
+   the two substitutions of recippartfrac, the start index / slice / operator of the simplify loops, the divisor of
+   as_N_D(monic_denominator), the enumeration order of expandcanonical, the merge operator of poles()).
+2. lake build Lcapy.Props.C11 Lcapy.Props.C11b re-checks every theorem against the regenerated constants; axioms audit.
 3. Correspondence: the real Lcapy and the Lean model (native driver, exact checked Gaussian rationals)
    format the same generated rational functions; results are compared by exact evaluation at random
    rational points (exp(-T0*var) is an independent indeterminate w, the undefined function an opaque
@@ -10,7 +15,9 @@
    coefficients; delay; degrees).
 4. Oracle (independent of the model's answer): the Lean SPEC value  B/A * w^(T/T0) * u^nu  must equal the
    value of EVERY format Lcapy offers; poles/zeros are judged by the Lean `rootsCheck`, residues by
-   `pfCheck`, N/D by the spec value.
+   `pfCheck`, N/D by the spec value; coefficient lists by `evalHigh` (the list re-assembles to the polynomial,
+   normalised lists start with 1), `ba` by b(x)/a(x) = value, degrees by the Lean degree of Lcapy's own B and A, the
+   reciprocal partial fractions by `pfCheck` on the function of 1/var.
 """
 import os
 import signal
@@ -376,7 +383,7 @@ def formats(H, v):
         ('partfrac_pairs', lambda: H.partfrac(combine_conjugates=True), None),
         ('partfrac_pairs_opt', lambda: H.partfrac(pairs=True), None),
         ('partfrac_pairs_ec', lambda: H.partfrac(pairs=True, method='ec'), None),
-        ('recippartfrac', lambda: H.recippartfrac(), None),
+        ('recippartfrac', lambda: H.recippartfrac(), None),          # through the model in recip_checks
         ('ZPK', lambda: H.ZPK(), None),
         ('ZPK_pairs', lambda: H.ZPK(pairs=True), None),
         ('ZPK_combine_conjugates', lambda: H.ZPK(combine_conjugates=True), None),
@@ -384,22 +391,23 @@ def formats(H, v):
         ('factored_pairs', lambda: H.factored(pairs=True), None),
         ('timeconst', lambda: H.timeconst(), 'timeconst'),
         ('timeconst_terms', lambda: H.timeconst_terms(), None),
-        ('expandcanonical', lambda: H.expandcanonical(), 'expandcanonical'),
+        ('expandcanonical', lambda: H.expandcanonical(), ('expandcanonical', 'expandcanonical_src')),
         ('as_continued_fraction', lambda: H.as_continued_fraction(), 'cf'),
         ('as_continued_fraction_inverse', lambda: H.as_continued_fraction_inverse(), 'cfi'),
         ('simplify', lambda: H.simplify(), None),
-        ('simplify_terms', lambda: H.simplify_terms(), None),
-        ('simplify_factors', lambda: H.simplify_factors(), None),
+        ('simplify_terms', lambda: H.simplify_terms(), 'simplify_terms'),
+        ('simplify_factors', lambda: H.simplify_factors(), 'simplify_factors'),
         ('N_over_D', lambda: H.N / H.D, 'N_over_D'),
-        ('as_N_D_monic', lambda: (lambda nd: nd[0] / nd[1])(H.as_N_D(monic_denominator=True)), None),
-        ('multiply_top_and_bottom', lambda: H.multiply_top_and_bottom(v + 1), 'mtb | 1 1'),
-        ('divide_top_and_bottom', lambda: H.divide_top_and_bottom(v), None),
+        ('as_N_D_monic', lambda: (lambda nd: nd[0] / nd[1])(H.as_N_D(monic_denominator=True)), 'asnd_monic'),
+        ('multiply_top_and_bottom', lambda: H.multiply_top_and_bottom(v + 1), ('mtb | 1 1', 'mtbsrc | 1 1')),
+        ('divide_top_and_bottom', lambda: H.divide_top_and_bottom(v), 'dtb | 0 1'),
+        ('divide_top_and_bottom_quadratic', lambda: H.divide_top_and_bottom(v**2 + 2 * v + 3), 'dtb | 3 2 1'),
         ('as_sum', lambda: H.as_sum(), None),
         ('as_monic_terms', lambda: H.as_monic_terms(), None),
         ('as_nonmonic_terms', lambda: H.as_nonmonic_terms(), None),
         ('expand_response', lambda: H.expand_response(), None),
         ('expand', lambda: H.expand(), None),
-        ('rationalize_denominator', lambda: H.rationalize_denominator(), None),
+        ('rationalize_denominator', lambda: H.rationalize_denominator(), 'rationalize'),
     ]
 
 
@@ -409,6 +417,7 @@ class Runner:
         self.disagreements = []
         self.counterexamples = 0
         self.tlimit = 8 if chk.tier == 'quick' else 20
+        self.ncase = 0
 
     def ask(self, line):
         return self.drv.ask1(line)
@@ -447,6 +456,7 @@ class Runner:
         chk, L_ = self.chk, self.L
         S = L_.sym
         v = L_.VAR[case['domain']]
+        self.ncase += 1
         e, H = build(L_, case)
         npts = 2 if chk.tier == 'quick' else 3
         pts = self.points(case, rng, npts)
@@ -475,6 +485,7 @@ class Runner:
                 chk.count('lcapy-error', '%s:%s' % (fname, err))
                 continue
             chk.count('format', fname)
+            chk.count('format by domain', '%s:%s' % (case['domain'], fname))
             for (pt, sv) in pts:
                 try:
                     got, err = L_.timed(lambda: L_.evalat(res, case, pt), self.tlimit)
@@ -488,15 +499,16 @@ class Runner:
                     chk.count('degenerate', 'unevaluable:%s' % fname)
                     continue
                 # correspondence with the model
-                if mreq:
-                    name, _, extra = mreq.partition(' | ')
+                for mreq1 in ((mreq,) if isinstance(mreq, str) else (mreq or ())):
+                    name, _, extra = mreq1.partition(' | ')
                     mv = self.ask('rf.fmt %s %s %s%s' % (name, h, ptstr(pt), (' | ' + extra) if extra else ''))
                     if mv in ('unmodelled', 'bad-op', 'undef'):
-                        chk.count('model', '%s:%s' % (fname, mv))
+                        chk.count('model', '%s:%s' % (name, mv))
                     else:
                         chk.coverage['correspondence']['compared'] += 1
+                        chk.count('model-compared', name)
                         if mv != got:
-                            self.disagree('fmt:' + fname, case, {'point': ptstr(pt), 'lcapy': got, 'model': mv})
+                            self.disagree('fmt:' + fname + ':' + name, case, {'point': ptstr(pt), 'lcapy': got, 'model': mv})
                 # oracle: spec predicate judged by Lean
                 ok = self.ask('rf.same %s %s | %s' % (h, ptstr(pt), got))
                 if ok != 'true':
@@ -554,6 +566,7 @@ class Runner:
             chk.coverage['correspondence']['compared'] += 1
             if (int(dg[0]), int(dg[1])) != md or int(dg[2]) != max(md) or bool(dg[3]) != (md[1] > md[0]):
                 self.disagree('degrees', case, {'lcapy': str(dg), 'model': md})
+        self.coeff_checks(case, H, pts, Bt, At, hl)
         # as_QMA: structural correspondence with the model's long division
         qma, err = L_.timed(lambda: H._ratfun.as_QMA(), self.tlimit)
         if err:
@@ -610,6 +623,7 @@ class Runner:
                 self.pf_checks(case, H, pts, Bt, At, tt, hl)
             if r[0] == 'true':
                 setattr(self, '_tab_' + nm, tt)
+                self.rootdict_checks(case, H, nm, tt)
         # poles(pairs=True) / zeros(pairs=True): pairs expanded + singles must factorise the polynomial
         for nm, fn, poly in (('poles(pairs)', lambda: H.poles(pairs=True), At), ('zeros(pairs)', lambda: H.zeros(pairs=True), Bt)):
             if all(c == '0' for c in poly):
@@ -663,6 +677,7 @@ class Runner:
                 chk.count('degenerate', 'unevaluable:%s' % nm)
             except Exception as e2_:   # noqa
                 chk.count('degenerate', '%s:%s' % (nm, type(e2_).__name__))
+        self.recip_checks(case, H, pts, Bt, At)
         # ZPK through the model with Lcapy's own root tables (root finding is an input, checked above)
         zpk, err = L_.timed(lambda: H._as_ZPK(), self.tlimit)
         if not err and zpk[0] is not None and not all(c == '0' for c in Bt):
@@ -807,6 +822,261 @@ class Runner:
                 if mv != got and mv != 'undef':
                     self.disagree('fmt:partfrac', case, {'point': ptstr(pt), 'lcapy': got, 'model': mv})
 
+
+    # ---------------- round 3: coefficient lists, degrees, root dictionaries, reciprocal partial fractions
+    def clist(self, lst, case):
+        """an Lcapy / SymPy list of coefficients -> driver tokens (symbols sampled)"""
+        L_ = self.L
+        S = L_.sym
+        out = []
+        for c in lst:
+            c = S.sympify(c.sympy if hasattr(c, 'sympy') else c)
+            if case.get('symvals'):
+                c = c.subs({S.Symbol(n, positive=True): L_.srat(Fraction(val)) for n, val in case['symvals'].items()})
+            out.append(L_.to_cq(c))
+        return out
+
+    def coeff_checks(self, case, H, pts, Bt, At, hl):
+        chk, L_ = self.chk, self.L
+        S = L_.sym
+        dom = case['domain']
+        plain = Fraction(case['T']) == 0 and case['nu'] == 0
+        zeroB = all(c == '0' for c in Bt)
+        # -- Ratfun.coeffs(): model on Lcapy's own B, A; oracle: each list re-assembles to the polynomial
+        r, err = L_.timed(lambda: H._ratfun.coeffs(), self.tlimit)
+        if err:
+            chk.count('lcapy-error', 'Ratfun.coeffs:%s' % err)
+        else:
+            try:
+                bl, al = self.clist(r[0], case), self.clist(r[1], case)
+                chk.count('data', 'Ratfun.coeffs')
+                chk.count('data by domain', '%s:Ratfun.coeffs' % dom)
+                mv = self.ask('rf.coeffs | %s | %s' % (' '.join(Bt), ' '.join(At)))
+                chk.coverage['correspondence']['compared'] += 1
+                if mv != '%s | %s' % (' '.join(bl), ' '.join(al)):
+                    self.disagree('Ratfun.coeffs', case, {'lcapy': [bl, al], 'model': mv})
+                for (pt, sv) in pts:
+                    x = cqs(pt[0])
+                    ok = [self.ask('poly.coeffsok | %s | %s | %s' % (' '.join(P), ' '.join(cs), x)) for P, cs in ((Bt, bl), (At, al))]
+                    if ok != ['true', 'true']:
+                        self.cex(case, {'kind': 'data', 'method': 'Ratfun.coeffs'}, {'B(low first)': Bt, 'A(low first)': At, 'lcapy': [bl, al], 'point': x},
+                                 'Ratfun.coeffs(): the coefficient lists do not re-assemble to B and A')
+                        break
+            except Unevaluable:
+                chk.count('degenerate', 'unevaluable:Ratfun.coeffs')
+        # -- Expr.D.coeffs() / normcoeffs(), Expr.N.coeffs() / normcoeffs() (N only when it is a polynomial)
+        for side in ('D', 'N'):
+            if side == 'N' and (not plain or zeroB):
+                continue
+            P, err = L_.timed(lambda: getattr(H, side), self.tlimit)
+            if err:
+                chk.count('lcapy-error', '%s:%s' % (side, err))
+                continue
+            try:
+                Pt = poly_coeffs(L_, P, case)
+            except Exception:   # noqa
+                chk.count('degenerate', '%s not polynomial after sampling' % side)
+                continue
+            for meth in ('coeffs', 'normcoeffs'):
+                r, err = L_.timed(lambda: getattr(P, meth)(), self.tlimit)
+                if err:
+                    chk.count('lcapy-error', '%s.%s:%s' % (side, meth, err))
+                    continue
+                try:
+                    cl = self.clist(r, case)
+                except Unevaluable:
+                    chk.count('degenerate', 'unevaluable:%s.%s' % (side, meth))
+                    continue
+                nm = '%s.%s' % (side, meth)
+                chk.count('data', nm)
+                chk.count('data by domain', '%s:%s' % (dom, nm))
+                mv = self.ask('poly.%s | %s' % (meth, ' '.join(Pt)))
+                chk.coverage['correspondence']['compared'] += 1
+                if mv != ' '.join(cl):
+                    self.disagree(nm, case, {'polynomial(low first)': Pt, 'lcapy': cl, 'model': mv})
+                for (pt, sv) in pts:
+                    x = cqs(pt[0])
+                    if meth == 'coeffs':
+                        # oracle: the list has the value of the polynomial (exact SymPy substitution) at the point
+                        try:
+                            got = L_.evalat(P, case, pt)
+                        except Exception:   # noqa
+                            continue
+                        ok = self.ask('poly.highsame | %s | %s | %s' % (' '.join(cl), x, got))
+                    else:
+                        ok = self.ask('poly.normok | %s | %s | %s' % (' '.join(Pt), ' '.join(cl), x))
+                    if ok != 'true':
+                        self.cex(case, {'kind': 'data', 'method': nm}, {'polynomial(low first)': Pt, 'lcapy': cl, 'point': x},
+                                 '%s(): the coefficient list does not describe the polynomial%s' % (nm, '' if meth == 'coeffs' else ' / is not normalised to a leading 1'))
+                        break
+        # -- Expr.ba (b, a normalised by a[0]); needs a polynomial N
+        if plain and not zeroB:
+            r, err = L_.timed(lambda: H.ba, self.tlimit)
+            if err:
+                chk.count('lcapy-error', 'ba:%s' % err)
+            else:
+                try:
+                    bl, al = self.clist(r[0], case), self.clist(r[1], case)
+                    Nt, Dt = poly_coeffs(L_, H.N, case), poly_coeffs(L_, H.D, case)
+                    chk.count('data', 'ba')
+                    chk.count('data by domain', '%s:ba' % dom)
+                    mv = self.ask('rf.ba | %s | %s' % (' '.join(Nt), ' '.join(Dt)))
+                    chk.coverage['correspondence']['compared'] += 1
+                    if mv != '%s | %s' % (' '.join(bl), ' '.join(al)):
+                        self.disagree('ba', case, {'lcapy': [bl, al], 'model': mv})
+                    h = head(case)
+                    for (pt, sv) in pts:
+                        ok = self.ask('rf.basame %s %s | %s | %s' % (h, ptstr(pt), ' '.join(bl), ' '.join(al)))
+                        if ok not in ('true', 'undef'):
+                            self.cex(case, {'kind': 'data', 'method': 'ba'}, {'lcapy': [bl, al], 'point': ptstr(pt), 'spec_value': sv},
+                                     'ba: b(var)/a(var) is not the expression or a[0] != 1')
+                            break
+                except Unevaluable:
+                    chk.count('degenerate', 'unevaluable:ba')
+                except Exception as e_:   # noqa
+                    chk.count('degenerate', 'ba:%s' % type(e_).__name__)
+        # -- degrees through the model (the names / operator read from the source), -oo for the zero polynomial
+        dg, err = L_.timed(lambda: (H.Ndegree, H.Ddegree, H.degree, H.is_strictly_proper), self.tlimit)
+        if err:
+            chk.count('lcapy-error', 'degrees:%s' % err)
+        elif H._ratfun is not None:
+            lv = '%s %s %s %s' % (str(S.sympify(dg[0])), str(S.sympify(dg[1])), str(S.sympify(dg[2])), 'true' if dg[3] else 'false')
+            mv = self.ask('rf.degrees | %s | %s' % (' '.join(Bt), ' '.join(At)))
+            chk.count('data', 'degrees-through-model')
+            chk.count('data by domain', '%s:degrees' % dom)
+            chk.coverage['correspondence']['compared'] += 1
+            if mv != lv:
+                self.disagree('degrees-through-model', case, {'lcapy': lv, 'model': mv})
+            # oracle: the Lean SPEC degrees (sdegree, -oo for zero) of Lcapy's own B and A judge all four answers
+            ok = self.ask('rf.degspec | %s | %s | %s' % (' '.join(Bt), ' '.join(At), lv))
+            if ok != 'true':
+                self.cex(case, {'kind': 'data', 'method': 'degrees'}, {'lcapy(Ndegree Ddegree degree is_strictly_proper)': lv,
+                                                                       'B(low first)': Bt, 'A(low first)': At},
+                         'Ndegree / Ddegree / degree / is_strictly_proper do not describe the degrees of numerator and denominator')
+
+    def rootdict_checks(self, case, H, nm, tt):
+        """aslist=True form and the merging loop, against the model (tt = the checked multiplicity table)"""
+        chk, L_ = self.chk, self.L
+        S = L_.sym
+        fn = (lambda: H.poles(aslist=True)) if nm == 'poles' else (lambda: H.zeros(aslist=True))
+        lst, err = L_.timed(fn, self.tlimit)
+        if err:
+            chk.count('lcapy-error', '%s(aslist):%s' % (nm, err))
+            return
+        try:
+            ll = sorted(self.clist(lst, case))
+        except Unevaluable:
+            chk.count('degenerate', 'surd-roots:%s(aslist)' % nm)
+            return
+        ml = sorted(self.ask('roots.aslist | %s' % tt).split())
+        chk.count('data', '%s(aslist)' % nm)
+        chk.count('data by domain', '%s:%s(aslist)' % (case['domain'], nm))
+        chk.coverage['correspondence']['compared'] += 1
+        if ml != ll:
+            self.disagree('%s(aslist)' % nm, case, {'lcapy': ll, 'model': ml, 'table': tt})
+            # oracle: the list, read as a table of multiplicity-1 entries, must factorise the polynomial like the dictionary does
+            self.cex(case, {'kind': 'data', 'method': '%s(aslist)' % nm}, {'dictionary': tt, 'list': ll},
+                     '%s(aslist=True) is not the dictionary with every root repeated by its multiplicity' % nm)
+        if nm == 'poles':
+            # the merging loop of Expr.poles on the raw list of Root objects of Ratfun.poles()
+            raw, err = L_.timed(lambda: H._ratfun.poles(), self.tlimit)
+            if err:
+                return
+            try:
+                rt = []
+                for q in raw:
+                    e = S.sympify(q.expr)
+                    if case.get('symvals'):
+                        e = e.subs({S.Symbol(k, positive=True): L_.srat(Fraction(val)) for k, val in case['symvals'].items()})
+                    rt.append('%s %d' % (L_.to_cq(e), int(q.n)))
+            except Unevaluable:
+                return
+            mm = self.ask('roots.merge | %s' % ' '.join(rt)).split()
+            mm = ' '.join('%s %s' % (a, b) for a, b in sorted(zip(mm[0::2], mm[1::2])))
+            chk.count('data', 'poles-merge')
+            chk.coverage['correspondence']['compared'] += 1
+            if mm != tt:
+                self.disagree('poles-merge', case, {'raw': rt, 'lcapy': tt, 'model': mm})
+
+    def recip_checks(self, case, H, pts, Bt, At):
+        """recippartfrac through the model: the partial-fraction data of the function of 1/var are judged by pfCheck
+        against the model's reciprocal polynomials, then the model's expression is evaluated at 1/x"""
+        chk, L_ = self.chk, self.L
+        S = L_.sym
+        if Fraction(case['T']) != 0 or all(c == '0' for c in Bt):
+            return
+        if chk.tier == 'quick' and self.ncase % 2:
+            return
+        h = head(case)
+        for method in ((None,) if chk.tier == 'quick' else (None, 'ec')):
+            def data():
+                q = S.Symbol('qtmp__')
+                e1 = H.sympy.subs(L_.VAR[case['domain']], 1 / q)
+                rr = L_.lcapy.ratfun.Ratfun(e1, q)
+                Q, R, P, O, dl, ud = rr.as_QRPO(method=method)
+                pol = {}
+                for pl in rr.poles():
+                    pol[pl.expr] = pol.get(pl.expr, 0) + pl.n
+                return q, rr, Q, R, P, O, pol
+            d, err = L_.timed(data, self.tlimit)
+            if err:
+                chk.count('lcapy-error', 'recip-as_QRPO:%s' % err)
+                continue
+            q, rr, Q, R, P, O, pol = d
+            res, err = L_.timed(lambda: H.recippartfrac(method=method), self.tlimit)
+            if err:
+                chk.count('lcapy-error', 'recippartfrac:%s' % err)
+                continue
+            try:
+                sub = {S.Symbol(n, positive=True): L_.srat(Fraction(val)) for n, val in (case.get('symvals') or {}).items()}
+
+                def pc(e):
+                    p = S.Poly(S.expand(S.sympify(e).subs(sub)), q)
+                    return [L_.to_cq(c) for c in reversed(p.all_coeffs())]
+                Qt, B2, A2 = pc(Q), pc(rr.B), pc(rr.A)
+                terms = ' '.join('%s %s %d' % (L_.to_cq(S.sympify(r_).subs(sub)), L_.to_cq(S.sympify(p_).subs(sub)), int(o_)) for r_, p_, o_ in zip(R, P, O))
+                m = {}
+                for r_, n_ in pol.items():
+                    k = L_.to_cq(S.sympify(r_).subs(sub))
+                    m[k] = m.get(k, 0) + int(n_)
+                ptab = ' '.join('%s %d' % kv for kv in sorted(m.items()))
+            except Unevaluable:
+                chk.count('degenerate', 'surd-residues:recippartfrac')
+                continue
+            except Exception as e_:   # noqa
+                chk.count('degenerate', 'recippartfrac-shape:%s' % type(e_).__name__)
+                continue
+            mr = self.ask('rf.recip | %s | %s' % (' '.join(Bt), ' '.join(At)))
+            if '|' not in mr:
+                chk.count('model', 'recip:' + mr)
+                continue
+            B1, A1 = [t.strip() for t in mr.split('|')]
+            ok = self.ask('rf.pfcheck | %s | %s | %s | %s | %s' % (B1, A1, ' '.join(Qt), ptab, terms))
+            path = 'model-polynomials'
+            if ok != 'true':
+                # Lcapy cancels common factors of B(1/q), A(1/q): same function?  then judge the data on Lcapy's own pair
+                same = self.ask('poly.crosseq | %s | %s | %s | %s' % (' '.join(B2), ' '.join(A2), B1, A1))
+                ok2 = self.ask('rf.pfcheck | %s | %s | %s | %s | %s' % (' '.join(B2), ' '.join(A2), ' '.join(Qt), ptab, terms))
+                path = 'lcapy-cancelled-polynomials'
+                if same != 'true' or ok2 != 'true':
+                    self.cex(case, {'kind': 'data', 'method': 'recippartfrac-data', 'option': method or 'sub'},
+                             {'B(1/q) A(1/q) (model)': [B1, A1], 'lcapy': [B2, A2], 'Q': Qt, 'poles': ptab, 'terms(r p o)': terms,
+                              'same_function': same, 'pfCheck': ok2},
+                             'recippartfrac: the partial-fraction data of the function of 1/var do not reconstruct it')
+                    continue
+            chk.count('data', 'recippartfrac(%s):%s' % (method or 'sub', path))
+            chk.count('data by domain', '%s:recippartfrac-through-model' % case['domain'])
+            for (pt, sv) in pts:
+                try:
+                    got = L_.evalat(res, case, pt)
+                except Exception:   # noqa
+                    continue
+                mv = self.ask('rf.fmt recippartfrac %s %s | %s | %s' % (h, ptstr(pt), ' '.join(Qt), terms))
+                chk.coverage['correspondence']['compared'] += 1
+                chk.count('model-compared', 'recippartfrac')
+                if mv != got and mv != 'undef':
+                    self.disagree('fmt:recippartfrac', case, {'point': ptstr(pt), 'lcapy': got, 'model': mv})
+
     # ---------------- zp2tf with list / dictionary arguments
     def zp2tf_checks(self, rng, n):
         chk, L_ = self.chk, self.L
@@ -860,12 +1130,21 @@ def run(chk, replay=None):
         if not os.path.exists(gen_path) or open(gen_path).read() != text:
             with open(gen_path, 'w') as f:
                 f.write(text)
-    chk.coverage['translator'] = {'status': 'ok' if not info['unparsed'] else 'partial', 'signs': info['signs'],
-                                  'isinstance': info['isinstance'], 'unparsed': info['unparsed']}
+    text2, info2 = tx_ratfun.generate_fmt(common.REPO)
+    gen_path2 = os.path.join(common.LEAN, 'Lcapy', 'Generated', 'RatfunFmtSrc.lean')
+    with common.LakeLock():
+        if not os.path.exists(gen_path2) or open(gen_path2).read() != text2:
+            with open(gen_path2, 'w') as f:
+                f.write(text2)
+    unp = info['unparsed'] + info2['unparsed']
+    chk.coverage['translator'] = {'status': 'ok' if not unp else 'partial', 'signs': info['signs'],
+                                  'isinstance': info['isinstance'], 'unparsed': unp,
+                                  'formats': {k: v for k, v in info2.items() if k != 'unparsed'}}
     # ---- 2. proofs
-    broken = chk.lean(['Lcapy/Props/C11.lean'],
+    broken = chk.lean(['Lcapy/Props/C11.lean', 'Lcapy/Props/C11b.lean'],
                       helper_files=['Lcapy/Proofs/Poly.lean', 'Lcapy/Proofs/PolyRatfun.lean', 'Lcapy/Proofs/PolyCF.lean',
-                                    'Lcapy/Model/Poly.lean', 'Lcapy/Model/Ratfun.lean', 'Lcapy/Driver/C11.lean'],
+                                    'Lcapy/Proofs/PolyRatfunFmt.lean', 'Lcapy/Model/Poly.lean', 'Lcapy/Model/Ratfun.lean',
+                                    'Lcapy/Model/RatfunFmt.lean', 'Lcapy/Driver/C11.lean'],
                       leanchecker=(chk.tier == 'thorough'))
     drv = chk.get_driver()
     L_ = L()
@@ -875,6 +1154,9 @@ def run(chk, replay=None):
                             'B, A from root tables (rational, zero, repeated, conjugate pairs, lone Gaussian roots), random coefficients, '
                             'symbolic coefficients sampled at rational values, or with a common factor; deg 0..4 each; T in {0, k/2}; nu in {0,1,2}; '
                             'every formatting method/option is called on it and judged at 2 (quick) / 3 (thorough) random rational points; '
+                            'the data-returning methods (coeffs, normcoeffs, Ratfun.coeffs, ba, degrees, poles/zeros dictionaries and lists, as_QMA, as_QRPO, '
+                            'the as_QRPO data of the function of 1/var behind recippartfrac) are compared structurally with the model and judged by the Lean checkers; '
+                            'the tables "format by domain" / "data by domain" count every method per variable (s, z, omega, f); '
                             'non-trivial = non-constant denominator and a defined sample point; distinct by (domain, B, A, T, nu, symbol values)')
     if replay:
         import json
